@@ -60,9 +60,9 @@ def _search_rules(ctx, run):
 
     inc_all = [r for r in res if not r["raises"] and orientation(r) is False]
     inc = [r for r in inc_all if any(e["kind"] == "loop_end" for e in r["events"]) and not any(d and kind_of(c) in ("other", "exact") for c, d, _ in r["cond"])]
-    if len(inc) != 1:
+    if not inc:
         raise AnalysisError("bisect: cannot isolate the increasing-orientation path")
-    r = inc[0]
+    # several looping paths differ in decisions about the iteration budget only (max_iter infinite or not, clipped at 0): each is judged
     problems = []
     # further data-dependent decisions on the way (an early exit from the search): the only one that keeps "within precision of the root
     # in the ARGUMENT" is an exact hit fn(m) == target; closeness of the function VALUE says nothing about the argument where fn is flat
@@ -73,68 +73,69 @@ def _search_rules(ctx, run):
                 if msg not in problems:
                     problems.append(msg)
     mids = []
-    le_ = [e for e in r["events"] if e["kind"] == "loop_end"]
-    guards = [e for e in r["events"] if e["kind"] == "guard"]
-    if not any(_is_cmp(g["cond"], lo, hi, {"lt"}, negated=True) for g in guards):
-        problems.append("lower < upper is not validated before the search")
-    if len(le_) != 1:
-        problems.append("no single search loop")
-    else:
-        ups = {init: (sym, upd) for _, sym, init, upd in le_[0]["updates"] if init in (lo, hi)}
-        if set(ups) != {lo, hi}:
-            problems.append("the loop does not carry both ends of the bracket")
+    for r in inc:
+        le_ = [e for e in r["events"] if e["kind"] == "loop_end"]
+        guards = [e for e in r["events"] if e["kind"] == "guard"]
+        if not any(_is_cmp(g["cond"], lo, hi, {"lt"}, negated=True) for g in guards):
+            problems.append("lower < upper is not validated before the search")
+        if len(le_) != 1:
+            problems.append("no single search loop")
         else:
-            (Ls, updL), (Us, updU) = ups[lo], ups[hi]
-            conv = _affine(Ls, Us)
-            # one evaluation of fn per iteration, at a point strictly inside the bracket
-            body_calls = [e for e in r["events"] if e["kind"] == "opaque_call" and e["callee"] == fn and any(x in (Ls, Us) for a_ in e["args"] for x in walk(a_))]
-            pts = {e["args"][0] for e in body_calls if e["args"]}
-            mids = [str(p_) for p_ in pts]
-            if len(pts) != 1:
-                problems.append(f"fn is evaluated at {len(pts)} points per iteration")
+            ups = {init: (sym, upd) for _, sym, init, upd in le_[0]["updates"] if init in (lo, hi)}
+            if set(ups) != {lo, hi}:
+                problems.append("the loop does not carry both ends of the bracket")
             else:
-                M = next(iter(pts))
-                ab = conv(M)
-                if ab is None or not (sp.simplify(ab[0] + ab[1] - 1) == 0 and ab[0] == sp.Rational(1, 2)):
-                    problems.append(f"evaluation point {str(M)[:60]} is not the midpoint of the bracket")
-                moves = {}
-                for name, sym, upd in (("lower", Ls, updL), ("upper", Us, updU)):
-                    mv = _moves_when(upd, sym, M, fn, tg)
-                    if mv is None:
-                        problems.append(f"{name} is not updated by a where() that keeps the old end or takes the midpoint on a comparison of fn(midpoint) with the target")
-                    else:
-                        moves[name] = mv
-                if len(moves) == 2:
-                    if moves["lower"] not in ("lt", "le"):
-                        problems.append(f"orientation: lower moves to the midpoint when fn(m) {moves['lower']} target (must be when fn(m) < target)")
-                    elif moves["upper"] not in ("gt", "ge"):
-                        problems.append(f"orientation: upper moves to the midpoint when fn(m) {moves['upper']} target (must be when fn(m) >= target)")
-                    elif (moves["lower"], moves["upper"]) == ("lt", "gt"):
-                        problems.append("neither end moves when fn(m) == target, so the bracket stops shrinking")
-            # loop condition: the widest bracket is still wider than the precision
-            tests = [e for e in r["events"] if e["kind"] == "while_test"]
-            okt = False
-            for e in tests[-1:]:
-                c = e["cond"]
-                if isinstance(c, Op) and c.op in ("gt", "ge", "lt", "le") and len(c.args) == 2:
-                    wide, prec = (c.args if c.op in ("gt", "ge") else c.args[::-1])
-                    if isinstance(wide, Op) and wide.op in ("max", "amax") and len(wide.args) == 1 and not wide.kw and prec == W.fl("precision"):
-                        ab = conv(wide.args[0])
-                        okt = ab is not None and ab == (-1, 1)
-                        # `for bracket in brackets: if not wide(bracket): break` tests the bracket this iteration has just produced
-                        okt = okt or wide.args[0] == Op("sub", (updU, updL))
-            if not okt:
-                problems.append(f"loop condition is {str(tests[-1]['cond'])[:60] if tests else None}, expected max(upper - lower) > precision")
-            # returned value lies in the final bracket
-            val = r["value"]
-            finals = {}
-            for s_ in walk(val):
-                if isinstance(s_, Op) and s_.op == "loop" and s_.args[3] in (Ls, Us):
-                    finals[s_] = s_.args[3]
-            from ..term import subst
-            ab = conv(subst(val, finals)) if finals else None
-            if ab is None or not (sp.simplify(ab[0] + ab[1] - 1) == 0 and ab[0] >= 0 and ab[1] >= 0):
-                problems.append("returned value is not a point of the final bracket")
+                (Ls, updL), (Us, updU) = ups[lo], ups[hi]
+                conv = _affine(Ls, Us)
+                # one evaluation of fn per iteration, at a point strictly inside the bracket
+                body_calls = [e for e in r["events"] if e["kind"] == "opaque_call" and e["callee"] == fn and any(x in (Ls, Us) for a_ in e["args"] for x in walk(a_))]
+                pts = {e["args"][0] for e in body_calls if e["args"]}
+                mids = [str(p_) for p_ in pts]
+                if len(pts) != 1:
+                    problems.append(f"fn is evaluated at {len(pts)} points per iteration")
+                else:
+                    M = next(iter(pts))
+                    ab = conv(M)
+                    if ab is None or not (sp.simplify(ab[0] + ab[1] - 1) == 0 and ab[0] == sp.Rational(1, 2)):
+                        problems.append(f"evaluation point {str(M)[:60]} is not the midpoint of the bracket")
+                    moves = {}
+                    for name, sym, upd in (("lower", Ls, updL), ("upper", Us, updU)):
+                        mv = _moves_when(upd, sym, M, fn, tg)
+                        if mv is None:
+                            problems.append(f"{name} is not updated by a where() that keeps the old end or takes the midpoint on a comparison of fn(midpoint) with the target")
+                        else:
+                            moves[name] = mv
+                    if len(moves) == 2:
+                        if moves["lower"] not in ("lt", "le"):
+                            problems.append(f"orientation: lower moves to the midpoint when fn(m) {moves['lower']} target (must be when fn(m) < target)")
+                        elif moves["upper"] not in ("gt", "ge"):
+                            problems.append(f"orientation: upper moves to the midpoint when fn(m) {moves['upper']} target (must be when fn(m) >= target)")
+                        elif (moves["lower"], moves["upper"]) == ("lt", "gt"):
+                            problems.append("neither end moves when fn(m) == target, so the bracket stops shrinking")
+                # loop condition: the widest bracket is still wider than the precision
+                tests = [e for e in r["events"] if e["kind"] == "while_test"]
+                okt = False
+                for e in tests[-1:]:
+                    c = e["cond"]
+                    if isinstance(c, Op) and c.op in ("gt", "ge", "lt", "le") and len(c.args) == 2:
+                        wide, prec = (c.args if c.op in ("gt", "ge") else c.args[::-1])
+                        if isinstance(wide, Op) and wide.op in ("max", "amax") and len(wide.args) == 1 and not wide.kw and prec == W.fl("precision"):
+                            ab = conv(wide.args[0])
+                            okt = ab is not None and ab == (-1, 1)
+                            # `for bracket in brackets: if not wide(bracket): break` tests the bracket this iteration has just produced
+                            okt = okt or wide.args[0] == Op("sub", (updU, updL))
+                if not okt:
+                    problems.append(f"loop condition is {str(tests[-1]['cond'])[:60] if tests else None}, expected max(upper - lower) > precision")
+                # returned value lies in the final bracket
+                val = r["value"]
+                finals = {}
+                for s_ in walk(val):
+                    if isinstance(s_, Op) and s_.op == "loop" and s_.args[3] in (Ls, Us):
+                        finals[s_] = s_.args[3]
+                from ..term import subst
+                ab = conv(subst(val, finals)) if finals else None
+                if ab is None or not (sp.simplify(ab[0] + ab[1] - 1) == 0 and ab[0] >= 0 and ab[1] >= 0):
+                    problems.append("returned value is not a point of the final bracket")
     ok = not problems
     run.oblige("C19.R1", "bisect: invariant fn(lower) <= target <= fn(upper) preserved by complementary where-updates from one midpoint", ok, "; ".join(problems),
                sample={"rule": "C19.R1", "midpoint": mids[0] if mids else None, "problems": problems})
